@@ -1,6 +1,6 @@
 use crate::{
     cfg::Cfg,
-    parser::{Label, ParserNode},
+    parser::{InstructionProperties, Label, ParserNode},
     passes::{DiagnosticManager, LintError, LintPass},
 };
 use uuid::Uuid;
@@ -29,7 +29,15 @@ impl LintPass for OverlappingFunctionCheck {
                 && node
                     .prevs()
                     .iter()
-                    .any(|prev| prev.functions().len() < shared_by);
+                    .any(|prev| {
+                        // (a return that was redirected to the exit is no way
+                        // into the shared code: the edge exists only in the
+                        // one-exit form of the function)
+                        prev.functions().len() < shared_by
+                            && !prev
+                                .jumps_to()
+                                .is_some_and(|to| to.get().as_str() == "(return)")
+                    });
             if shared_by > 1 && (is_entry || sharing_starts_here) {
                 // HACK: Create a dummy label with the same name
                 // Name the label the program writes first: not whichever the
